@@ -86,6 +86,7 @@ type pairResult struct {
 	// restore is skipped when a panic unwinds through the function (input of C13.restore / C10.reset)
 	plainRestore map[string]token.Pos // field → a plain restoring store
 	plainPop     token.Pos            // a plain releaseScope call
+	lateDefer    map[string]pairFinding // field → its deferred restore is registered after a call that can fail ran with the field changed
 }
 
 type pairFinding struct {
@@ -173,16 +174,38 @@ func savedStructField(p *an.Prog, f *an.Fn, e ast.Expr, field string) (types.Obj
 	if lit == nil {
 		return nil, "", false
 	}
-	for _, el := range lit.Elts {
-		kv, ok := el.(*ast.KeyValueExpr)
-		if !ok {
-			continue
-		}
-		if k, ok := kv.Key.(*ast.Ident); ok && k.Name == sel.Sel.Name && p.FieldKey(info, kv.Value) == field {
-			return obj, an.RoleOf(obj) + "." + k.Name, true
+	for _, m := range litMembers(info, lit) {
+		if m.name == sel.Sel.Name && p.FieldKey(info, m.val) == field {
+			return obj, an.RoleOf(obj) + "." + m.name, true
 		}
 	}
 	return nil, "", false
+}
+
+type litMember struct {
+	name string
+	val  ast.Expr
+}
+
+// litMembers: the members a struct literal sets, keyed (`T{scope: st.scope}`) or positional (`T{st.scope, …}`).
+func litMembers(info *types.Info, lit *ast.CompositeLit) []litMember {
+	var out []litMember
+	var st *types.Struct
+	if tv, ok := info.Types[lit]; ok && tv.Type != nil {
+		st, _ = tv.Type.Underlying().(*types.Struct)
+	}
+	for i, el := range lit.Elts {
+		if kv, ok := el.(*ast.KeyValueExpr); ok {
+			if k, ok := kv.Key.(*ast.Ident); ok {
+				out = append(out, litMember{k.Name, kv.Value})
+			}
+			continue
+		}
+		if st != nil && i < st.NumFields() {
+			out = append(out, litMember{st.Field(i).Name(), el})
+		}
+	}
+	return out
 }
 
 // throughBinds follows an identifier that is a parameter (or receiver) of a helper — of f, of f's root, or f itself
@@ -301,7 +324,7 @@ func explorePairs(p *an.Prog, f *an.Fn) *pairResult {
 	pairedFields := pairedFieldsFor(p)
 	res := &pairResult{fn: f, fieldBad: map[string]pairFinding{}, fieldSeen: map[string]bool{}, callDepth: map[*ast.CallExpr]int{}, callPush: map[ast.Node]map[token.Pos]bool{},
 		callDpop: map[*ast.CallExpr]int{}, callRegs: map[*ast.CallExpr][]map[string]string{},
-		pushSites: map[token.Pos]bool{}, popSites: map[token.Pos]bool{}, plainRestore: map[string]token.Pos{}}
+		pushSites: map[token.Pos]bool{}, popSites: map[token.Pos]bool{}, plainRestore: map[string]token.Pos{}, lateDefer: map[string]pairFinding{}}
 	depthCap := 3
 	negReported := false
 	topPush := func(st *an.State) token.Pos {
@@ -320,6 +343,19 @@ func explorePairs(p *an.Prog, f *an.Fn) *pairResult {
 		Call: func(x *an.Explorer, call *ast.CallExpr, st *an.State) {
 			d := st.Int("depth")
 			notePush(call, st)
+			// a call that can panic while a field is changed and its restore is not yet registered: if the restore
+			// turns out to be a deferred one (Defer hook), it was registered too late
+			switch an.CalleeName(info, call) {
+			case newScopeFn, releaseScopeFn:
+			default:
+				if !c11cannotPanic(p, f, call, 0) {
+					for _, pf := range pairedFields {
+						if st.Get("cur:"+pf) != "" && st.Get("dres:"+pf) == "" && st.Get("risk:"+pf) == "" {
+							st.Set("risk:"+pf, p.RelPos(call.Pos())+" ("+an.Str(call.Fun)+")")
+						}
+					}
+				}
+			}
 			if cur, ok := res.callDepth[call]; !ok || d < cur {
 				res.callDepth[call] = d
 			}
@@ -363,7 +399,16 @@ func explorePairs(p *an.Prog, f *an.Fn) *pairResult {
 				return
 			}
 			if fl, ok := an.Unparen(d.Call.Fun).(*ast.FuncLit); ok {
-				// deferred closure: its plain restoring stores run at every exit
+				// deferred closure: its plain restoring stores run at every exit, and so do the pops it makes
+				// unconditionally (`defer func() { st.releaseScope() }()`)
+				for _, s := range fl.Body.List {
+					if es, isEs := s.(*ast.ExprStmt); isEs {
+						if call, isCall := es.X.(*ast.CallExpr); isCall && an.IsCallTo(info, call, releaseScopeFn) {
+							res.popSites[call.Pos()] = true
+							st.Add("dpop", 1)
+						}
+					}
+				}
 				for _, s := range fl.Body.List {
 					as, ok := s.(*ast.AssignStmt)
 					if !ok {
@@ -375,6 +420,11 @@ func explorePairs(p *an.Prog, f *an.Fn) *pairResult {
 							if fk == pf && rhs != nil {
 								if o, ok := isRestoreSource(p, f, rhs, pf); ok {
 									st.Set("dres:"+pf, an.RoleOf(o))
+									if risk := st.Get("risk:" + pf); risk != "" {
+										if _, dup := res.lateDefer[pf]; !dup {
+											res.lateDefer[pf] = pairFinding{d.Pos(), "the deferred restore of " + pf + " is registered only after " + risk + " ran with the field already changed: if that call fails, nothing puts the field back (a failure swallowed by try or isset leaves it changed)", an.Facts(st)}
+										}
+									}
 								}
 							}
 						}
@@ -490,6 +540,9 @@ func explorePairs(p *an.Prog, f *an.Fn) *pairResult {
 			pos = ex.Ret.Pos()
 		}
 		bal := ex.State.Int("depth") - ex.State.Int("dpop")
+		if deferredInParent(f) {
+			continue // a deferred literal pops and restores for the function that deferred it, where it is accounted for
+		}
 		if bal != 0 && len(res.scopeBad) < 3 {
 			res.scopeBad = append(res.scopeBad, pairFinding{pos, fmt.Sprintf("a normal exit leaves the scope stack %+d relative to entry (pushes − pops − deferred pops)", bal), ex.Trail})
 		}
@@ -593,6 +646,8 @@ func reportFields(c *an.Ctx, rule string, r *pairResult, only map[string]bool) {
 		}
 		key := r.fn.Name + "/field:" + strings.SplitN(f, ".", 2)[1]
 		if b, bad := r.fieldBad[f]; bad {
+			c.Bad(rule, key, b.pos, b.trail, "%s: %s", r.fn.Name, b.msg)
+		} else if b, late := r.lateDefer[f]; late {
 			c.Bad(rule, key, b.pos, b.trail, "%s: %s", r.fn.Name, b.msg)
 		} else {
 			c.OK(rule, key, r.fn.Pos(), "%s is saved before it is changed and restored (or restored by defer) on every normal path", f)
